@@ -35,7 +35,7 @@ THEOREMS = ["C08_decomposition", "C08_redact_complete", "C08_redact_never_panics
             "C08_inadmissible_unchanged", "C08_prompts_redacted", "C08_all_variants_scanned", "C08_tooluse_redacted",
             "C08_variants_known",
             "C08_no_text", "C08_no_text_seq", "C08_inventory_ok", "C08_inventory_safe", "C08_inventory_notes_ok",
-            "C08_cas_clears_all", "C08_partial_cas_refuted", "C08_unfiltered_writer_refuted", "C08_notes_mode_masks", "C08_exclude_wins", "C08_notes_needs_opt_in", "C08_agent_kinds",
+            "C08_cas_clears_all", "C08_partial_cas_refuted", "C08_unfiltered_writer_refuted", "C08_notes_mode_masks", "C08_exclude_wins", "C08_matching_remote_excluded", "C08_excluded_repo_is_local", "C08_notes_needs_opt_in", "C08_agent_kinds",
             "C08_nonvacuous", "C08_nonvacuous_msg", "C08_nonvacuous_inventory", "C08_nonvacuous_seq"]
 CLAIM = {
     "text": "Machine-checked proof (Coq 8.16.1) over executable Gallina models. Redaction: for ALL byte texts and "
@@ -127,6 +127,38 @@ CONFIGS = {
     "default+api-env": ({"prompt_storage": "default"}, None),
     "unset+api-env": ({}, None),
 }
+# the remotes dimension: 0..3 remotes, each matching (M) or not matching (N) the exclusion glob, in every order,
+# crossed with the global storage mode; plus the `*` wildcard and include lists over several remotes.
+# These run the plain commit and the amend path only.
+URL_M = ["https://github.com/acme/secret.git", "git@github.com:acme/internal.git", "https://github.com/acme/x.git"]
+URL_N = ["https://github.com/other/mirror.git", "https://gitlab.com/fork/y.git", "ssh://git@example.org/z.git"]
+EXCL_GLOBS = ["https://github.com/acme/*", "git@github.com:acme/*"]
+REMOTE_COMBOS = ["", "M", "N", "MM", "MN", "NM", "NN", "MNN", "NMN", "NNM", "NNN", "MMM", "MMN"]
+RM_PATHS = ["commit", "amend-pending"]
+
+
+def combo_urls(combo):
+    return [(URL_M if ch == "M" else URL_N)[k_] for k_, ch in enumerate(combo)]
+
+
+for _mode in ("notes", "default", "local"):
+    for _c in REMOTE_COMBOS:
+        CONFIGS[f"rm:{_mode}:exclude:{_c or '0'}"] = ({"prompt_storage": _mode, "exclude_prompts_in_repositories": EXCL_GLOBS},
+                                                      combo_urls(_c))
+for _c in ("MN", "NM", "NN", "NNM"):
+    CONFIGS[f"rm:notes:exclude*:{_c}"] = ({"prompt_storage": "notes", "exclude_prompts_in_repositories": ["*"]}, combo_urls(_c))
+    CONFIGS[f"rm:notes:include:{_c}"] = ({"prompt_storage": "notes", "include_prompts_in_repositories": EXCL_GLOBS},
+                                         combo_urls(_c))
+    CONFIGS[f"rm:local:include+fallback-notes:{_c}"] = ({"prompt_storage": "local", "default_prompt_storage": "notes",
+                                                          "include_prompts_in_repositories": EXCL_GLOBS}, combo_urls(_c))
+    CONFIGS[f"rm:notes:include+exclude:{_c}"] = ({"prompt_storage": "notes", "include_prompts_in_repositories": ["*github.com*"],
+                                                  "exclude_prompts_in_repositories": EXCL_GLOBS}, combo_urls(_c))
+
+
+def paths_for(cfgname):
+    return RM_PATHS if cfgname.startswith("rm:") else PATHS
+
+
 # extra environment of a configuration (GIT_AI_API_BASE_URL: custom API base => CAS-upload route; nothing listens)
 CONFIG_ENV = {"default+api-env": {"GIT_AI_API_BASE_URL": "http://127.0.0.1:9"},
               "unset+api-env": {"GIT_AI_API_BASE_URL": "http://127.0.0.1:9"}}
@@ -155,26 +187,39 @@ def glob_match(pat, s):
     return fnmatch.fnmatchcase(s, pat)
 
 
+def remote_list(remote):
+    return [] if not remote else ([remote] if isinstance(remote, str) else list(remote))
+
+
+def excluded_py(cfg, remote):
+    """PROPERTY reading: a repository is excluded from prompt sharing when ANY of its remotes matches ANY exclusion
+    pattern (or the list has the `*` wildcard)."""
+    excl = cfg.get("exclude_prompts_in_repositories", [])
+    rs = remote_list(remote)
+    return bool(excl) and ("*" in excl or any(glob_match(p, u) for u in rs for p in excl))
+
+
 def effective_mode_py(cfg, remote):
     """The documented resolution order (doc comment of effective_prompt_storage), independent of the model."""
+    rs = remote_list(remote)
     excl = cfg.get("exclude_prompts_in_repositories", [])
     incl = cfg.get("include_prompts_in_repositories", [])
     glob = cfg.get("prompt_storage", "default")
     fb = cfg.get("default_prompt_storage")
-    if excl:
-        if "*" in excl or (remote and any(glob_match(p, remote) for p in excl)):
-            return "local"
+    if excluded_py(cfg, remote):
+        return "local"
     if not incl:
         return glob
-    hit = any(glob_match(p, remote) for p in incl) if remote else ("*" in incl)
+    hit = any(glob_match(p, u) for u in rs for p in incl) if rs else ("*" in incl)
     return glob if hit else (fb or "local")
 
 
 def model_config_case(cfg, remote):
     excl = cfg.get("exclude_prompts_in_repositories", [])
     incl = cfg.get("include_prompts_in_repositories", [])
-    excluded = bool(excl) and ("*" in excl or bool(remote and any(glob_match(p, remote) for p in excl)))
-    hit = (any(glob_match(p, remote) for p in incl) if remote else ("*" in incl)) if incl else False
+    rs = remote_list(remote)
+    excluded = excluded_py(cfg, remote)
+    hit = (any(glob_match(p, u) for u in rs for p in incl) if rs else ("*" in incl)) if incl else False
     return " ".join([cfg.get("prompt_storage", "default"), cfg.get("default_prompt_storage", "none"),
                      C.sx(excluded), C.sx(not incl), C.sx(hit)])
 
@@ -375,8 +420,8 @@ def run_path(args):
             files[f"f{k}.txt"] = F0
             files[f"z{k}.txt"] = G0
         sim.init(files)
-        if remote:
-            sim.realgit("remote", "add", "origin", remote)
+        for k_, u_ in enumerate(remote_list(remote)):
+            sim.realgit("remote", "add", "origin" if k_ == 0 else f"mirror{k_}", u_)
         ag = Agent(sim, kind, keys)
         problems = []
 
@@ -871,7 +916,7 @@ def run(ctx):
         kinds = ["inline", "claude"]
         items, k = [], 0
         for cfg in cfgs:
-            for p in PATHS:
+            for p in paths_for(cfg):
                 for kind in kinds:
                     items.append((ctx.scratch, k, cfg, p, kind, keys))
                     k += 1
@@ -880,7 +925,7 @@ def run(ctx):
             pairs = [r.pick(pairs) for _ in range(24)] + [("amend-pending", "rebase-slow"), ("amend-pending", "cherry-pick")]
             pair_cfgs = ["default", "notes"]
         else:
-            pair_cfgs = cfgs
+            pair_cfgs = [c_ for c_ in cfgs if not c_.startswith("rm:")]
         for cfg in pair_cfgs:
             for pa in pairs:
                 for kind in kinds:
@@ -909,6 +954,20 @@ def run(ctx):
             eff_cases = [(c, model_config_case(*CONFIGS[c])) for c in cfgs]
             em = C.run_cases(drv, "c08-effective", eff_cases, shards=1)
             bad = [c for c in cfgs if em.get(c) != effective_mode_py(*CONFIGS[c])]
+            # should_exclude_prompts of the model (quantifiers read from the source) against the property reading
+            xc = []
+            for c in cfgs:
+                cfg_, rem_ = CONFIGS[c]
+                pats = cfg_.get("exclude_prompts_in_repositories", [])
+                rs_ = remote_list(rem_)
+                tbl = [[list(p_.encode()), list(u_.encode()), 1 if glob_match(p_, u_) else 0] for p_ in pats for u_ in rs_]
+                xc.append((c, C.sx([list(p_.encode()) for p_ in pats]) + " " + C.sx([list(u_.encode()) for u_ in rs_])
+                           + " " + C.sx(tbl)))
+            xm = C.run_cases(drv, "c08-excluded", xc, shards=1)
+            xbad = [c for c in cfgs if xm.get(c) != ("1" if excluded_py(*CONFIGS[c]) else "0")]
+            obligations.append(("tie:should_exclude (model, quantifiers read from the source) agrees with the property reading - "
+                                "excluded iff ANY remote matches ANY exclusion pattern - on every configuration",
+                                not xbad, ", ".join(xbad[:6])))
             obligations.append(("tie:effective_mode (model) equals the documented resolution order on every configuration",
                                 not bad, ", ".join(bad)))
         model_cases = [(str(x["idx"]), sys_model_case(x, keys, msgs_sx, cands_sx, has_inline))
